@@ -1,6 +1,7 @@
 import Driver.Proto
 import SsqlVerif.Model.Tumbling
 import SsqlVerif.Model.Sliding
+import SsqlVerif.Model.SlidingLate
 import SsqlVerif.Spec.Window
 set_option autoImplicit false
 open Proto
@@ -20,12 +21,22 @@ def cfgStr (c : Case) (k : String) (d : String) : String :=
   | some [_, v] => v
   | _ => d
 
+/-- timestamp token → usable timestamp (window/factory.go extractTimestamp): plain digits int64,
+`f…` float64, `s…` decimal string, `t…` time.Time; `none` (absent), `nil`, `garbage` (non-numeric
+string) are unplaceable; without a declared TIMEUNIT (`unit = 0`) only time.Time values are usable -/
+def tsOfTok (unit : Int) (tok : String) : Option Int :=
+  if tok == "none" || tok == "nil" || tok == "garbage" then none
+  else if tok.startsWith "t" then parseInt (tok.drop 1).toString
+  else if unit == 0 then none
+  else if tok.startsWith "f" || tok.startsWith "s" then parseInt (tok.drop 1).toString
+  else parseInt tok
+
 def emLine (e : Emission) : List String :=
   (if e.kind == .late then "lemit" else "emit") :: toString e.start :: toString e.stop :: e.rows.map (fun r => toString r.id)
 
 /-- the executable interface of a window model -/
 structure Machine (σ : Type) where
-  add : σ → Row → Int → σ × List Emission
+  add : σ → Row → Int → Option Int → σ × List Emission   -- last argument: observed late-update target (witness of a Go map-order choice)
   pop : σ → σ
   iter : σ → σ × List Emission
   tick : σ → Int → σ
@@ -44,33 +55,40 @@ def parseGap (g : String) : Option Gap :=
   match g.splitOn ":" with
   | k :: id :: ts :: _ => do
     let k ← parseNat k; let id ← parseNat id
-    some { k := k, id := id, ts := if ts == "none" then none else parseInt ts }
+    some { k := k, id := id, ts := tsOfTok 1 ts }
   | _ => none
 
 variable {σ : Type}
 
-def addRow (m : Machine σ) (s : σ) (id : Nat) (ts : Option Int) (now : Int) : σ × List Emission :=
+def addRow (m : Machine σ) (s : σ) (id : Nat) (ts : Option Int) (now : Int) (hint : Option Int := none) : σ × List Emission :=
   match ts with
   | none => (s, [])
-  | some t => m.add s { id := id, ts := t } now
+  | some t => m.add s { id := id, ts := t } now hint
 
-/-- run the trigger loop for the already popped watermark; gap adds fire after the k-th emission -/
-partial def triggerLoop [Inhabited σ] (m : Machine σ) (s : σ) (gaps : List Gap) (now : Int) (k : Nat) (acc : List Emission) :
-    σ × List Emission × Nat :=
+/-- starts of the late re-deliveries the implementation produced during one op, in order -/
+def lemitStarts (obs : List (List String)) : List Int :=
+  obs.filterMap fun l => match l with
+    | "lemit" :: a :: _ => parseInt a
+    | _ => none
+
+/-- run the trigger loop for the already popped watermark; gap adds fire after the k-th emission;
+`hints` = observed late-update targets of this op, consumed one per late update -/
+partial def triggerLoop [Inhabited σ] (m : Machine σ) (s : σ) (gaps : List Gap) (now : Int) (k : Nat) (acc : List Emission)
+    (hints : List Int) : σ × List Emission × Nat :=
   if !m.busy s then (s, acc, k) else
   let (s1, es) := m.iter s
   match es with
-  | [] => triggerLoop m s1 gaps now k acc
+  | [] => triggerLoop m s1 gaps now k acc hints
   | e :: _ =>
-    let (s2, acc2, k2) := (gaps.filter (·.k == k)).foldl (fun (st : σ × List Emission × Nat) g =>
-        let (s', es') := addRow m st.1 g.id g.ts now
-        (s', st.2.1 ++ es', st.2.2)) (s1, acc ++ [e], k + 1)
-    triggerLoop m s2 gaps now k2 acc2
+    let (s2, acc2, hints2) := (gaps.filter (·.k == k)).foldl (fun (st : σ × List Emission × List Int) g =>
+        let (s', es') := addRow m st.1 g.id g.ts now st.2.2.head?
+        (s', st.2.1 ++ es', if es'.isEmpty then st.2.2 else st.2.2.drop 1)) (s1, acc ++ [e], hints)
+    triggerLoop m s2 gaps now (k + 1) acc2 hints2
 
-def deliver [Inhabited σ] (m : Machine σ) (s : σ) (gaps : List Gap) (now : Int) : Option (σ × List Emission) :=
+def deliver [Inhabited σ] (m : Machine σ) (s : σ) (gaps : List Gap) (now : Int) (hints : List Int := []) : Option (σ × List Emission) :=
   if m.chanEmpty s then none else
   let s1 := m.pop s
-  let (s2, es, _) := triggerLoop m s1 gaps now 0 []
+  let (s2, es, _) := triggerLoop m s1 gaps now 0 [] hints
   some (s2, es)
 
 partial def drain [Inhabited σ] (m : Machine σ) (s : σ) (now : Int) (acc : List Emission) : σ × List Emission :=
@@ -104,11 +122,12 @@ def runWith [Inhabited σ] (m : Machine σ) (s0 : σ) (scfg : WinSpec.Cfg) (c : 
   let mut evs : List WinSpec.Ev := []
   let mut tags : List String := []
   let mut flushed := false
+  let mut ptTicks : Nat := 0
   for (op, implObs) in c.ops do
     match op with
     | "add" :: id :: ts :: _ =>
       let id := (parseNat id).getD 0
-      let ts := if ts == "none" then none else parseInt ts
+      let ts := tsOfTok (cfgInt c "tsunit" 1) ts
       if mode == "pt" then
         match ts with
         | some t => s := m.ptAdd s { id := id, ts := t }
@@ -120,14 +139,14 @@ def runWith [Inhabited σ] (m : Machine σ) (s0 : σ) (scfg : WinSpec.Cfg) (c : 
         | some t => for t' in m.tagAdd s { id := id, ts := t } now do
                       unless tags.contains t' do tags := t' :: tags
         | none => unless tags.contains "no-timestamp" do tags := "no-timestamp" :: tags
-        let (s', es) := addRow m s id ts now
+        let (s', es) := addRow m s id ts now (lemitStarts implObs).head?
         s := s'
         obs := obs ++ [es.map emLine]
         evs := evs ++ [WinSpec.Ev.arr id ts] ++ evsOfObs implObs []
       flushed := false
     | "deliver" :: gs =>
       let gaps := gs.filterMap parseGap
-      match deliver m s gaps now with
+      match deliver m s gaps now (lemitStarts implObs) with
       | none => obs := obs ++ [[["idle"]]]
       | some (s', es) =>
         s := s'
@@ -144,23 +163,34 @@ def runWith [Inhabited σ] (m : Machine σ) (s0 : σ) (scfg : WinSpec.Cfg) (c : 
     | ["tick"] =>
       s := m.tick s now
       obs := obs ++ [[]]
-    | ["pttick"] =>
+    | "pttick" :: gs =>
+      let gaps := gs.filterMap parseGap
       let (s', es) := m.ptTick s
       s := s'
+      -- Adds issued during the hand-off of the fired window (inside the callback)
+      if !es.isEmpty then
+        for g in gaps do
+          if g.k == 0 then
+            match g.ts with
+            | some t => s := m.ptAdd s { id := g.id, ts := t }
+            | none => pure ()
       obs := obs ++ [es.map emLine]
-      evs := evs ++ evsOfObs implObs []
+      evs := evs ++ evsOfObs implObs gaps
+      ptTicks := ptTicks + 1
     | _ => obs := obs ++ [[["bad-op"]]]
-  let spec := if mode == "pt" then "ok" else
+  let spec := if mode == "pt" then
+      (match WinSpec.holdsPT scfg evs ptTicks with | none => "ok" | some e => "fail:" ++ e)
+    else
     match WinSpec.holds scfg evs flushed with
     | none => "ok"
     | some e => "fail:" ++ e
   return { obs := obs, spec := spec, tags := tags }
 
 instance : Inhabited Tumbling.TW := ⟨Tumbling.init 1 0 0⟩
-instance : Inhabited Sliding.SW := ⟨Sliding.init 1 1 0⟩
+instance : Inhabited SlidingLate.SWL := ⟨SlidingLate.init 1 1 0 0⟩
 
 def tumblingMachine : Machine Tumbling.TW where
-  add := Tumbling.stepAdd
+  add := fun s r now _ => Tumbling.stepAdd s r now
   pop := Tumbling.stepPop
   iter := Tumbling.stepIter
   tick := fun s now => { s with wm := Wm.tick s.wm false now }
@@ -177,25 +207,89 @@ def tumblingMachine : Machine Tumbling.TW where
     ((if Wm.tooFar s.wm r.ts now then ["far-future-guard"] else []) ++
      (if s.wm.chan.length ≥ s.wm.cap then ["watermark-channel-full"] else []))
 
-def slidingMachine : Machine Sliding.SW where
-  add := fun s r now => (Sliding.stepAdd s r now, [])
-  pop := Sliding.stepPop
-  iter := Sliding.stepIter
-  tick := fun s now => { s with wm := Wm.tick s.wm false now }
-  busy := fun s => s.trigW.isSome
-  chanEmpty := fun s => s.wm.chan.isEmpty
+def slidingMachine : Machine SlidingLate.SWL where
+  add := fun s r now h => SlidingLate.stepAdd s r now h
+  pop := SlidingLate.stepPop
+  iter := SlidingLate.stepIter
+  tick := fun s now => SlidingLate.tick s false now
+  busy := fun s => s.base.trigW.isSome
+  chanEmpty := fun s => s.base.wm.chan.isEmpty
   ptAdd := fun s _ => s
   ptTick := fun s => (s, [])
   tagAdd := fun s r now =>
-    (if Sliding.kept s r now then
-       (if Sliding.lateNow s r now then "late-kept-in-current" else
-         (if (match s.cur with | some c => decide (r.ts < c) | none => false) then
-            (if s.advanced then "ontime-in-gap-before-current-slot" else "ontime-before-current-slot") else "ontime"))
+    (if !(SlidingLate.lateTargets s r now).isEmpty then
+       (if (SlidingLate.lateTargets s r now).length > 1 then "late-update-several-windows"
+        else (if Sliding.kept s.base r now then "late-update-and-kept-in-current" else "late-update"))
+     else if Sliding.kept s.base r now then
+       (if Sliding.lateNow s.base r now then "late-kept-in-current" else
+         (if (match s.base.cur with | some c => decide (r.ts < c) | none => false) then
+            (if s.base.advanced then "ontime-in-gap-before-current-slot" else "ontime-before-current-slot") else "ontime"))
      else "late-drop") ::
-    ((if Wm.tooFar s.wm r.ts now then ["far-future-guard"] else []) ++
-     (if s.wm.chan.length ≥ s.wm.cap then ["watermark-channel-full"] else []))
+    ((if Wm.tooFar s.base.wm r.ts now then ["far-future-guard"] else []) ++
+     (if s.base.wm.chan.length ≥ s.base.wm.cap then ["watermark-channel-full"] else []))
+
+/-- SQL-level stage: no model trace (the free-running schedule decides which late rows survive);
+the declarative oracle is evaluated on the delivered result rows, plus the aggregate columns:
+count(*) = number of collected ids, sum(id) = their sum, window_id = "<start>_<end>". -/
+def runSql (c : Case) : CaseOut := Id.run do
+  let ms : Int := 1000000
+  let size := cfgInt c "size" 1000 * ms
+  let slide := (if cfgStr c "kind" "" == "sqlsliding" then cfgInt c "slide" 500 else cfgInt c "size" 1000) * ms
+  let ooo := cfgInt c "ooo" 0 * ms
+  let mut keys : List String := []
+  let mut evs : List WinSpec.Ev := []
+  let mut emits : List WinSpec.Ev := []
+  let mut bad : Option String := none
+  let mut delivered : List (Nat × Int × Int × List Nat) := []
+  let late := cfgInt c "late" 0
+  let grpOf (ks : List String) (k : String) : Nat := (ks.idxOf k)
+  for (op, implObs) in c.ops do
+    match op with
+    | ["row", id, ts, k] =>
+      unless keys.contains k do keys := keys ++ [k]
+      let t := if ts == "none" then none else (parseInt ts).map (· * ms)
+      evs := evs ++ [WinSpec.Ev.arr ((parseNat id).getD 0) t (grpOf keys k)]
+    | ["flush"] =>
+      for l in implObs do
+        match l with
+        | "res" :: ws :: we :: k :: cnt :: sum :: wid :: ids =>
+          let idl := ids.filterMap parseNat
+          unless keys.contains k do keys := keys ++ [k]
+          if (parseNat cnt).getD 0 != idl.length && bad.isNone then bad := some "count-differs-from-rows-of-the-window"
+          if (parseNat sum).getD 0 != idl.foldl (· + ·) 0 && bad.isNone then bad := some "sum-differs-from-rows-of-the-window"
+          if wid != "t" && bad.isNone then bad := some "window_id-not-start_end"
+          let a := (parseInt ws).getD 0
+          let b := (parseInt we).getD 0
+          let g := grpOf keys k
+          -- a result for an interval already delivered for this group is a re-delivery (ALLOWEDLATENESS > 0):
+          -- same bounds (hence same window_id), previous rows first, then further rows of the group in the interval
+          match delivered.find? (fun d => d.1 == g && d.2.1 == a && d.2.2.1 == b) with
+          | some d =>
+            let prev := d.2.2.2
+            if late ≤ 0 && bad.isNone then bad := some "interval-delivered-twice-without-allowance"
+            if idl.take prev.length != prev && bad.isNone then bad := some "re-delivery-does-not-start-with-previous-rows"
+            let extra := idl.drop prev.length
+            let okExtra := extra.all fun i => evs.any fun e => match e with
+              | .arr i' (some t) g' => i' == i && g' == g && decide (a ≤ t) && decide (t < b)
+              | _ => false
+            if (!okExtra || idl.eraseDups.length != idl.length) && bad.isNone then bad := some "re-delivery-row-not-of-this-group-and-interval"
+            delivered := delivered.map (fun x => if x.1 == g && x.2.1 == a && x.2.2.1 == b then (g, a, b, idl) else x)
+          | none =>
+            delivered := delivered ++ [(g, a, b, idl)]
+            emits := emits ++ [WinSpec.Ev.emit false a b idl g]
+        | ["sentinel-lost"] => if bad.isNone then bad := some "sentinel-window-never-delivered"
+        | _ => if bad.isNone then bad := some "unreadable-result-line"
+    | _ => pure ()
+  let scfg : WinSpec.Cfg := { size := size, slide := slide, ooo := ooo, lateness := 0, now := 1700000000000000000 }
+  let spec := match bad with
+    | some b => "fail:" ++ b
+    | none => match WinSpec.holds scfg (evs ++ emits) true with
+      | none => "ok"
+      | some e => "fail:" ++ e
+  return { obs := c.ops.map (fun p => p.2), spec := spec, tags := ["sql-level-oracle-only"] }
 
 def run (c : Case) : CaseOut :=
+  if (cfgStr c "kind" "").startsWith "sql" then runSql c else
   let size := cfgInt c "size" 1000
   let ooo := cfgInt c "ooo" 0
   let late := cfgInt c "late" 0
@@ -203,7 +297,7 @@ def run (c : Case) : CaseOut :=
   match cfgStr c "kind" "tumbling" with
   | "sliding" =>
     let slide := cfgInt c "slide" 500
-    runWith slidingMachine (Sliding.init size slide ooo)
+    runWith slidingMachine (SlidingLate.init size slide ooo late)
       { size := size, slide := slide, ooo := ooo, lateness := late, now := now } c
   | _ =>
     runWith tumblingMachine (Tumbling.init size ooo late)
